@@ -25,6 +25,7 @@ import os
 import shutil
 import sys
 import tempfile
+import traceback
 import time
 
 from . import fsx
@@ -527,21 +528,21 @@ def k_rmtree_partial(ex):
     """vdb replace / uninstall, crash strictly inside shutil.rmtree(old): the old package is
     still listed with some of its files gone"""
     return (ex["kind"] in ("vreplace", "vuninstall") and ex["lo"] < ex["m"] < ex["lo"] + ex["n_rm"]
-            and ex["old_listed"])
+            and ex["old_listed"] and not ex["scan_raises"])
 
 
 def k_replace_neither(ex):
     """vdb replace, crash after rmtree(old) finished and before rename(new): with different
     versions neither is listed, with the same version the package is gone"""
     return (ex["kind"] == "vreplace" and ex["lo"] + ex["n_rm"] <= ex["m"] < ex["hi"]
-            and not ex["old_listed"] and not ex["new_listed"])
+            and not ex["old_listed"] and not ex["new_listed"] and not ex["scan_raises"])
 
 
 def k_bin_both_listed(ex):
     """binpkg replace whose old and new tarball names differ, crash exactly between the rename of the
     new tarball and the unlink of the old one: both (complete) tarballs are listed"""
     return (ex["kind"] == "breplace" and ex["old"] != ex["new"] and ex["lo"] < ex["m"] < ex["hi"]
-            and ex["old_listed"] and ex["new_listed"])
+            and ex["old_listed"] and ex["new_listed"] and not ex["scan_raises"])
 
 
 CLASSES = [("vdb-rmtree-partial", k_rmtree_partial), ("vdb-replace-neither", k_replace_neither),
@@ -596,10 +597,12 @@ def run_scenario(chk, work, sc, max_points=None, keep_all=False):
     final = fsx.snapshot(top)
     viewn, stalen = observe(top)
     conv = to_ops(ref.trace, pre, final)
-    if conv is None:
-        raise Broken("a traced call is outside the model: " + repr(ref.trace))
-    ops, idx = conv
     n = len(ref.trace)
+    unmodelled = conv is None
+    if unmodelled:
+        # a traced call is outside the model: the crash points are still replayed and judged
+        conv = ([], [0] * (n + 1))
+    ops, idx = conv
     # ---- model input taken from the package / the completed run (see Model_C29 header)
     m = {"pre": pre, "tree": tree, "items": [], "chunks": [], "cache": []}
     if sc["kind"] in ("vinstall", "vreplace"):
@@ -628,8 +631,9 @@ def run_scenario(chk, work, sc, max_points=None, keep_all=False):
                     m["cache"].append(bytes(c.args[2]))
                 else:
                     m["chunks"].append(bytes(c.args[2]))
-        tar = [o for o in ops if o[0] == "Append"][0][2]
-        m["chunks"].insert(0, tar)
+        tars = [o for o in ops if o[0] == "Append"]
+        if tars:
+            m["chunks"].insert(0, tars[0][2])
     # ---- crash before every traced call
     points = list(range(n))
     if max_points is not None and len(points) > max_points:
@@ -667,8 +671,8 @@ def run_scenario(chk, work, sc, max_points=None, keep_all=False):
             snaps[k] = fsx.snapshot(top)
         views[k] = observe(top)
         shutil.rmtree(top, ignore_errors=True)
-    return {"sc": sc, "m": m, "ops": ops, "idx": idx, "views": views, "snaps": snaps, "n": n,
-            "trace": [repr(c) for c in ref.trace]}
+    return {"sc": sc, "m": m, "ops": ops, "idx": idx, "views": views, "snaps": {} if unmodelled else snaps, "n": n,
+            "trace": [repr(c) for c in ref.trace], "unmodelled": unmodelled}
 
 
 def line_spans(d):
@@ -686,13 +690,18 @@ def window_of(res):
     """(lo, hi, n_rm) in model-op indices, from the structure of the scenario"""
     sc, ops = res["sc"], res["ops"]
     if sc["kind"] == "breplace":
-        lo = [i for i, o in enumerate(ops) if o[0] == "Rename" and o[1][-1].startswith(".tmp.") and o[1][-1].endswith(".tbz2")][0]
+        ren = [i for i, o in enumerate(ops) if o[0] == "Rename" and o[1][-1].startswith(".tmp.") and o[1][-1].endswith(".tbz2")]
+        if not ren:
+            return 0, 0, 0
+        lo = ren[0]
         old = ("r", sc["cat"], sc["old"] + ".tbz2")
         return lo, lo + 1 + sum(1 for o in ops if o[0] == "Unlink" and o[1] == old), 0
     if sc["kind"] not in ("vreplace", "vuninstall"):
         return 0, 0, 0
     old = ("r", sc["cat"], sc["old"])
     rm = [i for i, o in enumerate(ops) if o[0] in ("Unlink", "Rmdir") and o[1][:3] == old]
+    if not rm:
+        return 0, 0, 0          # the old directory is not removed in place: no known class applies
     lo = rm[0]
     n_rm = len(rm)
     hi = lo + n_rm + (2 if sc["kind"] == "vreplace" else 0)
@@ -719,6 +728,7 @@ def judge(chk, res):
             continue
         ex = {"kind": sc["kind"], "m": res["idx"][k], "lo": lo, "hi": hi, "n_rm": n_rm,
               "old_listed": listed(v, sc["cat"], sc.get("old")), "new_listed": listed(v, sc["cat"], sc.get("pf")),
+              "scan_raises": v.kind if isinstance(v, Err) else None,
               "crash_before_call": k, "call": res["trace"][k] if k < n else None,
               "cat": sc["cat"], "old": sc.get("old"), "new": sc.get("pf")}
         for cid, pred in CLASSES:
@@ -726,7 +736,10 @@ def judge(chk, res):
                 break
         else:
             what = "the fresh view after the crash is neither the old nor the new state"
-            if "old" in sc and "pf" in sc and not ex["old_listed"] and not ex["new_listed"]:
+            if isinstance(v, Err):
+                what = (f"after the crash a fresh scan of the repository RAISES {v.kind}: nothing is listed any more "
+                        "(neither the old nor the new state; unrelated packages disappear too)")
+            elif "old" in sc and "pf" in sc and not ex["old_listed"] and not ex["new_listed"]:
                 what = "after the crash NO version of the replaced package is listed (neither old nor new)"
             bad.append({"what": what, "scenario": sc, "detail": ex, "view": v, "old_view": v0, "new_view": vn})
     # the completed state is the NEW state
@@ -801,14 +814,41 @@ def main(chk: Check):
             except Failed as e:
                 py_bad.append(e.args[0])
                 continue
+            except Exception:  # noqa: BLE001 - an unexpected answer of the implementation, not a crash of the check
+                chk.violation("correspondence",
+                              {"what": "the implementation answered in a way the harness does not expect while "
+                                       "the scenario was replayed", "scenario": sc,
+                               "traceback": traceback.format_exc()[-3000:]}, no_input=True)
+                continue
             finally:
                 shutil.rmtree(wdir, ignore_errors=True)
+            try:
+                bad = judge(chk, res)
+            except Exception:  # noqa: BLE001
+                chk.violation("correspondence",
+                              {"what": "the recorded views of a scenario cannot be judged", "scenario": sc,
+                               "traceback": traceback.format_exc()[-3000:]}, no_input=True)
+                continue
+            py_bad += bad
+            if res["unmodelled"]:
+                chk.violation("correspondence",
+                              {"what": "a traced filesystem call of the update is outside Model_C29 (the theorems of "
+                                       "Prop_C29 no longer speak about this code)", "scenario": sc,
+                               "trace": res["trace"]}, no_input=not bad)
+                continue
             results.append(res)
-            py_bad += judge(chk, res)
     finally:
         shutil.rmtree(work, ignore_errors=True)
     chk.cov["t_scenarios_s"] = round(time.time() - chk.t0, 1)
-    evaluate(chk, ok, results, py_bad)
+    try:
+        evaluate(chk, ok, results, py_bad)
+    except Exception:  # noqa: BLE001
+        for b in py_bad[:5]:
+            chk.violation("property", {"what": b["what"], "input": b})
+        chk.violation("correspondence",
+                      {"what": "the recorded traces / snapshots / views cannot be rendered for the model (an entry "
+                               "kind or answer Model_C29 does not know)", "traceback": traceback.format_exc()[-3000:]},
+                      no_input=not py_bad)
 
 
 def evaluate(chk, ok, results, py_bad):
